@@ -26,12 +26,14 @@ import DDProps.C05Lex
 import DDProps.C06
 import DDProps.C06Rooted
 import DDProps.C07
+import DDProps.C07Accept
 import DDProps.C07Levels
 import DDProps.C08
 import DDProps.C08Sched
 import DDProps.C08Values
 import DDProps.C08Values2
 import DDProps.C09
+import DDProps.C09Accept
 import DDProps.C09Sched
 import DDProps.C09SchedKeep
 import DDProps.C10
@@ -40,6 +42,7 @@ import DDProps.C11CopyVars
 import DDProps.C12
 import DDProps.C12Dyn
 import DDProps.C12Sched
+import DDProps.C12SchedKeep
 import DDProps.C12Total
 import DDProps.C13
 import DDProps.C13Counts
@@ -56,6 +59,7 @@ import DDProps.Histories
 import DDProps.Histories2
 import DDProps.Histories3
 import DDProps.Histories4
+import DDProps.Histories4Sched
 import DDProps.Tables
 import DD.ApiDriver
 import DD.AutoDriver
